@@ -10,6 +10,8 @@ import itertools
 import z3
 
 SOLVER_TIMEOUT_MS = 10000
+# when set, len()/rfind() of symbolic strings are arbitrary integers
+ABSTRACT_METRICS = [False]
 LAST_LINE = None
 
 
@@ -585,7 +587,23 @@ class SStr:
         return mk_str(tuple(op) + self.parts)
 
     # -- length, indexing ------------------------------------------------------
-    def length(self):
+    def _abstract_metric(self, kind, lo):
+        """Over-approximation used when only the *existence* of lengths /
+        positions matters (line-width bookkeeping): an arbitrary integer,
+        the same one for the same string along a path."""
+        p = cur()
+        memo = p.ghost.setdefault('str_metrics', {})
+        key = (kind, self.z.sexpr())
+        if key not in memo:
+            v = p.fresh_int(kind)
+            p.assume(v >= lo)
+            memo[key] = SNum(v)
+        return memo[key]
+
+    def length(self, exact=False):
+        if ABSTRACT_METRICS[0] and not exact and any(
+                k != 'c' for k, _ in self.parts):
+            return self._abstract_metric('strlen', 0)
         total = 0
         for k, p in self.parts:
             if k == 'c':
@@ -618,14 +636,14 @@ class SStr:
             pre = self._concrete_prefix()
             if key < len(pre):
                 return pre[key]
-            ln = self.length()
+            ln = self.length(exact=True)
             if not (ln > key):
                 raise IndexError('string index out of range')
             return mk_str([('v', z3.SubString(self.z, key, 1))])
         suf = self._concrete_suffix()
         if -key <= len(suf):
             return suf[key]
-        ln = self.length()
+        ln = self.length(exact=True)
         if not (ln >= -key):
             raise IndexError('string index out of range')
         return mk_str([('v', z3.SubString(self.z, _znum(ln) + key, 1))])
@@ -670,7 +688,7 @@ class SStr:
         return self._slice_sym(lo, hi)
 
     def _slice_sym(self, lo, hi):
-        ln = _znum(self.length())
+        ln = _znum(self.length(exact=True))
         if lo is None:
             lo = 0
         loz = _znum(lo)
@@ -752,8 +770,15 @@ class SStr:
     def replace(self, *a):
         raise Unsupported('replace on symbolic string')
 
-    def rfind(self, *a):
-        raise Unsupported('rfind on symbolic string')
+    def rfind(self, sub, *a):
+        if a or not isinstance(sub, str):
+            raise Unsupported('rfind with bounds on symbolic string')
+        if ABSTRACT_METRICS[0]:
+            r = self._abstract_metric('rfind_' + sub.encode().hex(), -1)
+            cur().assume(sym_lt(r, self.length()))
+            return r
+        return mk_num(z3.simplify(z3.LastIndexOf(self.z,
+                                                 z3.StringVal(sub))))
 
     def split(self, *a):
         raise Unsupported('split on symbolic string')
@@ -764,6 +789,10 @@ class SStr:
     def __repr__(self):
         return 'SStr(' + '+'.join(
             repr(p) if k == 'c' else f'{k}:{p}' for k, p in self.parts) + ')'
+
+
+def sym_lt(a, b):
+    return (_znum(a) < _znum(b))
 
 
 def s_or(a, b):
